@@ -1040,7 +1040,7 @@ def _concrete_bytes(b):
         return type(b) is bytes
 
 
-def h_smd(mat: str, multi: bool, has_tri: bool, two_frames: bool, bone_i: int, bord: int, n: int) -> None:
+def h_smd(mat: str, multi: bool, has_tri: bool, two_frames: bool, bone_i: int, bord: int, n: int, pre: str = "") -> None:
     """Mesh.export -> Mesh.parse_smd reproduces bones (names, parents), animation frames and triangles (material, positions,
     normals, UVs, bone links and weights); exporting the parsed mesh writes the same bytes.  Material name symbolic (ASCII,
     exact length; n == -1: constant), third bone's name by symbolic index, single/multiple bone links, with/without triangles."""
@@ -1054,6 +1054,8 @@ def h_smd(mat: str, multi: bool, has_tri: bool, two_frames: bool, bone_i: int, b
         assume(n > 0 and the_mat != "end" and the_mat[n - 1] != "\\" and the_mat[n - 1] != "/")
         for i in range(n - 1):
             assume(not (the_mat[i] == "/" and the_mat[i + 1] == "/"))
+        # `pre`: a concrete beginning that reads like one of the format's own keywords ("end", "time", "version")
+        the_mat = pre + the_mat
     if not has_tri:
         assume(not multi and n < 0)
     root = smd.Bone("root", None)
@@ -1107,8 +1109,8 @@ def h_smd(mat: str, multi: bool, has_tri: bool, two_frames: bool, bone_i: int, b
         check(a == b, "smd: second generation output differs", a, b)
 
 
-def h_smd_witness(mat: str, multi: bool, has_tri: bool, two_frames: bool, bone_i: int, bord: int, n: int) -> None:
-    h_smd(mat, multi, has_tri, two_frames, bone_i, bord, n)
+def h_smd_witness(mat: str, multi: bool, has_tri: bool, two_frames: bool, bone_i: int, bord: int, n: int, pre: str = "") -> None:
+    h_smd(mat, multi, has_tri, two_frames, bone_i, bord, n, pre)
     raise Fail("reached")
 
 
@@ -1344,10 +1346,11 @@ def _text_obligations(quick):
     obls.append(Obl("vcd.witness", MOD, "h_vcd_witness", slices=[sl[0], sl[3]], budget_s=120, per_path_s=60, witness=True, desc="reachability twin"))
     # --- SMD
     sl = [{"n": -1}, {"n": 1}, {"n": 2}] + ([] if quick else [{"n": 3}, {"n": 4}])
+    sl += [{"n": 1, "pre": k} for k in ("end", "time", "version", "nodes", "triangles")]
     obls.append(Obl("smd.roundtrip", MOD, "h_smd", slices=sl, budget_s=600, per_path_s=90,
                     desc="Mesh.export -> Mesh.parse_smd: bones, parents, frames, triangles, links and weights; second export identical",
                     bound="3 bones (third name from 5 by index), 1 or 3 frames, 0 or 2 triangles, 1 or 2 links per vertex; material name symbolic "
-                          "printable ASCII of exact length 1-2 (3-4 thorough) inside the representable domain; floats with <= 6 decimals, rotations 0"))
+                          "printable ASCII of exact length 1-2 (3-4 thorough) inside the representable domain, also behind a keyword-like beginning (end, time, ...); floats with <= 6 decimals, rotations 0"))
     obls.append(Obl("smd.witness", MOD, "h_smd_witness", slices=[{"n": 1}], budget_s=120, per_path_s=60, witness=True, desc="reachability twin"))
     # --- PCF
     base = {"n_fn": -1, "n_sv": -1}
